@@ -101,6 +101,12 @@ def _proc(arg):
             elif act[0] == "set_store":
                 dds.set_store("local", internal_dir=act[1], data_dir=act[2], cache_objects=cache)
                 r = None
+            elif act[0] == "repoint":
+                # the name `act[1]` (a symbolic link) now leads to another directory
+                tmp = act[1] + ".swap"
+                os.symlink(act[2], tmp)
+                os.replace(tmp, act[1])
+                r = None
             obs.append((act, "ok", r, vlog.snapshot()))
         except DDSException as e:
             obs.append((act, "dds", str(e)[:150], vlog.snapshot()))
@@ -272,6 +278,48 @@ def views_job(arg):
     return rep
 
 
+def repoint_job(arg):
+    """The same directory *names* are configured twice in one process while the directories behind them changed (a
+    `current` link re-pointed to another, already initialised environment): the second configuration works on the
+    second environment only - nothing remembered from the first one under that name."""
+    cache, rel = arg
+    rep = core.Report("C16")
+    rep.evaluations = 1
+    case = {"repoint": True, "cache_objects": cache, "relative": rel}
+    with core.Scratch("vp_c16r_") as base0:
+        base = os.path.realpath(base0)
+        e1, e2, cur = os.path.join(base, "env1"), os.path.join(base, "env2"), os.path.join(base, "current")
+        for e in (e1, e2):
+            os.makedirs(e)
+        # env2 already holds a store with another result
+        o = core.fork_call(_proc, (base, os.path.join(e2, "internal"), os.path.join(e2, "data"), cache, [("keep_q",)]), timeout=120)
+        os.symlink(e1, cur)
+        ig, dg = ("current/internal", "current/data") if rel else (os.path.join(cur, "internal"), os.path.join(cur, "data"))
+        script = [("keep1",), ("load", "/c16/x/one"), ("keep1",), ("repoint", cur, e2), ("set_store", ig, dg), ("keep1",), ("load", "/c16/x/one"), ("load", "/c16/q"), ("keep1",)]
+        expected = [("ok", V1, ["node1"]), ("ok", V1, []), ("ok", V1, []), ("ok", None, None), ("ok", None, None), ("ok", V1, ["node1"]), ("ok", V1, []), ("ok", VQ, []), ("ok", V1, [])]
+        obs = core.fork_call(_proc, (base, ig, dg, cache, script), timeout=120)
+        fresh = core.fork_call(_proc, (base, os.path.join(e2, "internal"), os.path.join(e2, "data"), None, [("load", "/c16/x/one"), ("keep1",)]), timeout=120)
+    if any(isinstance(x, core.JobFailed) for x in (o, obs, fresh)):
+        rep.inconclusive.append("repoint job: worker failed")
+        return rep
+    if obs and obs[0][0] == "set_store":
+        rep.violate("repoint: set_store raised %s" % (obs[0][2],), case, mechanism=mech("relative" if rel else "absolute", "absolute", "repoint"))
+        return rep
+    for i, ((act, st, r, lg), (est, ev, elog)) in enumerate(zip(obs, expected)):
+        rep.count("observations")
+        if st != est or (ev is not None and r != ev) or (elog is not None and lg != elog):
+            rep.violate("same directory names configured again after the link behind them was re-pointed (cache=%r): step %d %r gave %s %r log=%r, expected %s %r log=%r" % (cache, i, act[:2], st, repr(r)[:80], lg, est, ev, elog),
+                        dict(case, step=i), mechanism="stale-state-under-directory-name")
+            return rep
+    for (act, st, r, lg), (ev, elog) in zip(fresh, ((V1, []), (V1, []))):
+        rep.count("observations")
+        if st != "ok" or r != ev or lg != elog:
+            rep.violate("after the re-pointed configuration kept /c16/x/one, a fresh process on the second environment's real directories gets %s %r log=%r for %r" % (st, repr(r)[:80], lg, act[:2]), case, mechanism="stale-state-under-directory-name")
+            return rep
+    rep.nontriv(("c16repoint", repr(cache), rel))
+    return rep
+
+
 def open_job(arg):
     """Opening a store on directories that are in use (files of a writer that is in the middle of storing a blob are
     there) changes nothing that exists: no file disappears or changes."""
@@ -322,7 +370,7 @@ def run(tier, seed):
     rep.rule = (
         "internal_dir x data_dir forms %r (all combinations) x cache_objects %r; per configuration: process A keeps two nodes, loads, re-keeps, chdirs, loads and re-keeps again; "
         "process B (other cwd, absolute real paths) and process C (same cwd and spelling) load and re-keep with an empty execution log; two-view scripts (one internal dir, two data dirs) in one process and "
-        "with one process per view switch; and opening further stores on directories that hold the files of a writer in mid-flight (nothing that exists may disappear or change). distinct_nontrivial = distinct configurations whose processes were all observed." % (FORMS, CACHE)
+        "with one process per view switch; and opening further stores on directories that hold the files of a writer in mid-flight (nothing that exists may disappear or change); the same directory names configured twice in one process around a re-pointed `current` link. distinct_nontrivial = distinct configurations whose processes were all observed." % (FORMS, CACHE)
     )
     jobs = []
     for i, iform in enumerate(FORMS):
@@ -339,8 +387,12 @@ def run(tier, seed):
         for c in (CACHE if tier != "quick" else [None, 3]):
             jobs.append(("open", (iform, c)))
 
+    for c in CACHE:
+        for rel in (False, True):
+            jobs.append(("repoint", (c, rel)))
+
     def dispatch(j):
-        return {"case": case_job, "views": views_job, "open": open_job}[j[0]](j[1])
+        return {"case": case_job, "views": views_job, "open": open_job, "repoint": repoint_job}[j[0]](j[1])
 
     results = core.fork_map(dispatch, jobs, timeout=600)
     for j, r in zip(jobs, results):
@@ -357,7 +409,9 @@ def run(tier, seed):
 def replay(payload):
     rep = core.Report("C16")
     c = payload["case"]
-    if c.get("open"):
+    if c.get("repoint"):
+        rep.merge(repoint_job((c["cache_objects"], c["relative"])))
+    elif c.get("open"):
         rep.merge(open_job((c["internal_form"], c["cache_objects"])))
     elif c.get("views"):
         rep.merge(views_job((c["internal_form"], c["cache_objects"], c["same_process"])))
